@@ -75,7 +75,7 @@ func expectFor(c plan.AddrCase) addrExpect {
 	switch c.Scheme {
 	case "":
 		e.url = hostport
-	case "https", "http":
+	case "https", "http", "h3":
 		e.url = c.Scheme + "://" + hostport + "/dns-query"
 	default:
 		e.url = c.Scheme + "://" + hostport
@@ -86,7 +86,7 @@ func expectFor(c plan.AddrCase) addrExpect {
 		port = def
 	}
 	e.network = "tcp"
-	if c.Scheme == "" || c.Scheme == "udp" {
+	if c.Scheme == "" || c.Scheme == "udp" || c.Scheme == "quic" || c.Scheme == "h3" {
 		e.network = "udp"
 	}
 	e.srvHost, e.srvPort = hostIP, port
